@@ -437,6 +437,17 @@ func c04Accepts() []string {
 	// the same ranges on several header lines (RFC 9110 5.3: equivalent to one comma-joined line)
 	out = append(out, "text/html\napplication/protobuf", "\napplication/protobuf", "image/png;q=0.9\ntext/*\napplication/json;q=0.5", "application/json;q=0\napplication/protobuf",
 		"junk\napplication/x-rev", "text/plain\n*/*;q=0.1", "application/protobuf\napplication/json", "application/json\napplication/protobuf")
+	// scale: long lists (legacy browsers, merging gateways): the only satisfiable range after
+	// 7, 8, 12, 40 and 300 others, on one line and spread over lines; and first with many after it
+	for _, k := range []int{7, 8, 12, 40, 300} {
+		var fill []string
+		for i := 0; i < k; i++ {
+			fill = append(fill, fmt.Sprintf("%s/x-t%d;q=0.%d", []string{"text", "image", "application", "audio"}[i%4], i, 1+i%9))
+		}
+		for _, target := range []string{"application/protobuf", "application/json;q=0.3", "application/x-rev"} {
+			out = append(out, strings.Join(fill, ", ")+", "+target, target+", "+strings.Join(fill, ","), strings.Join(fill[:k/2], ", ")+"\n"+strings.Join(fill[k/2:], ", ")+", "+target)
+		}
+	}
 	out = append(out, "application/json;q=abc", ",", ";", "application/json;level=1;q=0.2, */*;q=0.1", "APPLICATION/JSON",
 		"application/json; charset=utf-8", "application/json;charset=utf-8;q=0.9, application/protobuf;q=0.1", "application/protobuf; a=b", "application/protobuf ; a=b ; q=0.3 , text/plain")
 	return out
